@@ -56,6 +56,12 @@ def import_library():
         # exceptions; numeric RuntimeWarnings stay silent - the harness itself casts and overflows on purpose
         for cat in (UserWarning, DeprecationWarning, FutureWarning, PendingDeprecationWarning):
             warnings.filterwarnings("error", category=cat)
+    if os.environ.get("VERIF_LOGGING"):
+        # (child interpreters of the "debug logging" sub-checks) what logging.basicConfig(level=DEBUG) in an application does: every logger
+        # is enabled for every level; the records go to a handler that keeps nothing
+        import logging
+
+        logging.basicConfig(level=getattr(logging, os.environ["VERIF_LOGGING"]), handlers=[logging.NullHandler()], force=True)
     import basictdf  # noqa
 
     got = os.path.realpath(os.path.dirname(basictdf.__file__))
